@@ -138,3 +138,70 @@ def real_end_case():
         return None
     finally:
         lts.install()
+
+
+def half_built_case():
+    """A connection loss while another thread is in the middle of constructing a request (paused at the creation of the
+    request's Event, i.e. somewhere inside RPC.__init__) must still fail every outstanding request promptly, and the
+    request under construction must end with a transport error as well."""
+    from . import lts
+    lts.uninstall()
+    import ncclient.operations.rpc as R
+    from ncclient import manager
+    from ncclient.transport.errors import TransportError
+    from ncclient.transport.unixSocket import UnixSocketSession
+    real_event = R.Event
+    gate, reached = threading.Event(), threading.Event()
+    paused = {'name': None}
+    def event_factory(*a, **k):
+        if threading.current_thread().name == paused['name']:
+            reached.set(); gate.wait(10)
+        return real_event(*a, **k)
+    dh = manager.make_device_handler({'name': 'default'})
+    a, b = socket.socketpair(socket.AF_UNIX, socket.SOCK_STREAM)
+    srv = Server(b); srv.start()
+    ses = UnixSocketSession(dh); ses._socket = a
+    res = {}
+    try:
+        ses._connected = True
+        ses._post_connect(timeout=5)
+        m = manager.Manager(ses, dh, timeout=TIMEOUT)
+        def call(slot):
+            t0 = time.monotonic()
+            try: res[slot] = ('value', m.get_config(source='running'))
+            except BaseException as e: res[slot] = ('error', e)
+            res[slot + '_end'] = time.monotonic()
+        R.Event = event_factory
+        paused['name'] = 'half-built'
+        tA = threading.Thread(target=call, args=('A',), daemon=True, name='half-built'); tA.start()
+        if not reached.wait(5):
+            return None                      # the constructor creates no Event of its own any more: nothing to pause at
+        tC = threading.Thread(target=call, args=('C',), daemon=True, name='complete'); tC.start()
+        if not srv.wait_messages(2):
+            return 'half_built: the complete request never reached the peer'
+        t_loss = time.monotonic()
+        try: b.shutdown(socket.SHUT_RDWR)
+        except OSError: pass
+        b.close()
+        ses.join(3)                          # the worker has broadcast the error and ended
+        gate.set()
+        tC.join(TIMEOUT + 2); tA.join(TIMEOUT + 2)
+        for slot in ('C', 'A'):
+            if slot not in res:
+                return 'half_built: request %s did not return within its timeout after the connection was lost' % slot
+            k, v = res[slot]
+            if k != 'error' or not isinstance(v, TransportError):
+                return ('half_built: request %s (%s) ended with %s instead of a transport error: the error broadcast did not reach it'
+                        % (slot, 'outstanding' if slot == 'C' else 'under construction at the loss', type(v).__name__ if k == 'error' else 'a reply'))
+        if res['C_end'] - t_loss > PROMPT + 3.0:
+            return 'half_built: the outstanding request was failed only %.1f s after the loss' % (res['C_end'] - t_loss)
+        return None
+    finally:
+        R.Event = real_event
+        gate.set()
+        try: ses.close()
+        except Exception: pass
+        for s in (a, b):
+            try: s.close()
+            except OSError: pass
+        lts.install()
